@@ -25,7 +25,8 @@
    Missing for the full statement: a typing judgement of the Rust API (what rustc accepts); "rustc
    compiles the generated code" (sampled by building harness/h_hydro_b). *)
 From Coq Require Import List String NArith Bool.
-From HV Require Import HydroB.Model HydroB.GenOps HydroB.PEmit HydroB.PArity HydroB.POut HydroB.PC41.
+From HV Require Import HydroB.Model HydroB.GenOps HydroB.PEmit HydroB.PArity HydroB.POut HydroB.XPartition HydroB.PC41.
+From HV Require Gen.OpsTable Partition.Model.
 Import ListNotations.
 Open Scope N_scope.
 
@@ -33,6 +34,16 @@ Theorem C41_guarded_accepted_partial : forall (f : flow) (rk : N -> N) (g : grap
   guarded rk f = true -> emit_flow GenOps.ops_table rk f = Some g -> partition_accepts g.
 Proof. intros f rk g. exact (emit_accepted GenOps.ops_table rk table_sane_gen f g). Qed.
 Print Assumptions C41_guarded_accepted_partial.
+
+(* the same with "accepted" meaning the verdict of engine Partition's executable model of
+   dfir_lang's partitioner (find_edge_barriers, access groups, all_preds, SubgraphMerge::new;
+   tied to the code by C19's own check) on the emitted graph, with Partition's own regenerated
+   operator table: proved from Partition's theorem C19_acyclic_accepted *)
+Theorem C41_guarded_accepted_by_partitioner_model : forall (rk : N -> N) (f : flow) (g : graph),
+  guarded rk f = true -> emit_flow GenOps.ops_table rk f = Some g ->
+  Partition.Model.partition_verdict Gen.OpsTable.ops_table (to_pgraph g) = Partition.Model.Accepted.
+Proof. exact guarded_accepted_by_partition_model. Qed.
+Print Assumptions C41_guarded_accepted_by_partitioner_model.
 
 Theorem C41_tick_cycles_accepted_partial : forall (f : flow) (rk : N -> N) (g : graph),
   flow_deferred_only f = true -> emit_flow GenOps.ops_table rk f = Some g -> partition_accepts g.
